@@ -398,7 +398,100 @@ func (e *envModel) marshal(format string, v value) []value {
 	}
 	data[0], data[1] = tag, uint8(doc.id)
 	e.tokenOf[sliceKey(data)] = tokenRef{doc, doc.size}
+	e.docs = append(e.docs, doc)
 	return data
+}
+
+// scanTokens recognises byte strings assembled by the code under test from complete document
+// tokens (a copy of one document, or several documents written one after the other, separated
+// by nothing or by line breaks). nil: the bytes are something else.
+func (e *envModel) scanTokens(data []value) []*docToken {
+	var out []*docToken
+	p := 0
+	for p < len(data) {
+		c, ok := data[p].(uint8)
+		if !ok {
+			return nil
+		}
+		if c == '\n' && len(out) > 0 {
+			p++
+			continue
+		}
+		if (c != 'Y' && c != 'J') || p+1 >= len(data) {
+			return nil
+		}
+		id, ok := data[p+1].(uint8)
+		if !ok {
+			return nil
+		}
+		var doc *docToken
+		for k := len(e.docs) - 1; k >= 0; k-- {
+			if uint8(e.docs[k].id) == id {
+				doc = e.docs[k]
+				break
+			}
+		}
+		if doc == nil || p+doc.size > len(data) {
+			return nil
+		}
+		for k := 2; k < doc.size; k++ {
+			if b, ok := data[p+k].(uint8); !ok || b != uint8(0xC0+k) {
+				return nil
+			}
+		}
+		out = append(out, doc)
+		p += doc.size
+	}
+	return out
+}
+
+// unmarshalConcat: several YAML documents' texts written one after the other. yaml.Marshal
+// renders a non-empty list as a block sequence at column 0, so the concatenation of non-empty
+// lists reads back as one list; an empty list is rendered "[]", after (or before) which a block
+// sequence is a syntax error (when the empty list comes first, yaml.v3 reads it and ignores the
+// rest - observed on the real decoder); anything that is not a list does not combine either.
+func (e *envModel) unmarshalConcat(format string, toks []*docToken, target value, mkErr func(string) value) value {
+	i := e.i
+	if format != "yaml" {
+		return mkErr("invalid character after top-level value")
+	}
+	it, ok := target.(iface)
+	if !ok {
+		return mkErr("yaml: Unmarshal(non-pointer)")
+	}
+	dst, ok := it.v.(*value)
+	if !ok || dst == nil {
+		return mkErr("yaml: Unmarshal(non-pointer)")
+	}
+	var all []value
+	for k, d := range toks {
+		src := d.obj
+		var srcT types.Type
+		if si, ok := src.(iface); ok {
+			src, srcT = si.v, si.t
+		}
+		sl, ok := src.([]value)
+		if ok && len(sl) == 0 && k == 0 && d.fmt == "yaml" && d.broken == "" {
+			// "[]" followed by further text: yaml.v3 (observed) decodes the flow sequence and
+			// ignores the rest without an error
+			break
+		}
+		if !ok || len(sl) == 0 || d.fmt != "yaml" || d.broken != "" {
+			return mkErr("yaml: line 2: could not find expected ':'")
+		}
+		var cp value = deepCopy(value(sl))
+		if srcT != nil && !types.Identical(srcT, deref(it.t)) {
+			mismatch := false
+			cp = convertDecodedM(cp, srcT, deref(it.t), format, &mismatch)
+			if mismatch {
+				return e.typeError(format)
+			}
+		}
+		all = append(all, cp.([]value)...)
+	}
+	e.decoded++
+	i.assignDecodedFmt(dst, value(all), it.t, format)
+	return iface{}
 }
 
 func (e *envModel) unmarshal(fr *frame, format string, data []value, target value) value {
@@ -410,6 +503,13 @@ func (e *envModel) unmarshal(fr *frame, format string, data []value, target valu
 		return iface{t: types.NewPointer(t.Type()), v: &v}
 	}
 	tr, ok := e.tokenOf[sliceKey(data)]
+	if !ok && len(data) > 0 {
+		if toks := e.scanTokens(data); len(toks) == 1 {
+			tr, ok = tokenRef{toks[0], toks[0].size}, true
+		} else if len(toks) > 1 {
+			return e.unmarshalConcat(format, toks, target, mkErr)
+		}
+	}
 	if format == "yaml" && !ok && blankYAML(data) {
 		// no YAML document at all (empty, blank or comment-only input): yaml.Unmarshal reports
 		// no error and leaves the destination as it is
